@@ -1349,6 +1349,12 @@ class Operation(_IRNode):
             value_mapper[self_result] = cloned_result
             if clone_name_hints:
                 cloned_result.name_hint = self_result.name_hint
+        if clone_operands:
+            # An operation may use its own results (graph regions); such an operand can
+            # only be remapped once the results of the clone exist.
+            for idx, operand in enumerate(self._operands):
+                if isinstance(operand, OpResult) and operand.op is self:
+                    cloned_op.operands[idx] = cloned_op.results[operand.index]
         return cloned_op
 
     def clone(
